@@ -27,6 +27,8 @@ def tbits(t):
 
 
 def arrangement(grids):
+    if any(len(g) == 0 for g in grids):
+        return 'empty-output'
     if any(len(set(g)) < len(g) for g in grids):
         return 'tied'
     if len(grids) == 1:
@@ -61,6 +63,9 @@ def gen_case(rng, ties=True):
             reps = int(rng.integers(1, 3))
             g = np.sort(np.concatenate([g, [g[j]] * reps]))
         grids.append(g)
+    # an output without any measurement (not only the last one) is legal: it contributes nothing
+    if n_out >= 2 and rng.random() < 0.15:
+        grids[int(rng.integers(n_out))] = np.array([], dtype=float)
     obs = [rng.uniform(0.3, 4.0, len(g)) for g in grids]
     n_mech = int(rng.integers(1, 4))
     psi = rng.uniform(0.5, 1.5, n_mech)
@@ -89,7 +94,10 @@ def spec_value(kinds, grids, obs, model, psi, sig):
         start += n
         yb = np.array([model.value(psi, o, t) for t in grids[o]])
         if not all(x > 0 for x in s):
+            # outside the support (C04: non-positive scale parameters score minus infinity,
+            # whatever the number of measurements)
             lp = np.full(len(yb), -np.inf)
+            total += -np.inf
         else:
             lp = c04.documented_logpdf(k, s, yb, obs[o])
         pw += list(lp)
@@ -101,7 +109,7 @@ def run_case(ctx, chi, kinds, grids, obs, n_mech, psi, sig, seed, tag='gen'):
     inp = {'kinds': kinds, 'times': grids, 'obs': obs, 'psi': psi, 'sigma': sig, 'n_mech': n_mech,
            'toy_seed': seed}
     arr = arrangement([list(g) for g in grids])
-    nontriv = arr in ('tied', 'disjoint', 'nested', 'overlapping')
+    nontriv = arr in ('tied', 'disjoint', 'nested', 'overlapping', 'empty-output')
     ctx.case(arr, nontrivial='%s/%s/%s' % (arr, ''.join(kinds), [len(g) for g in grids]) if nontriv else False,
              sample=inp)
     model = toy.ToyModel(len(kinds), n_mech, seed)
@@ -123,6 +131,20 @@ def run_case(ctx, chi, kinds, grids, obs, n_mech, psi, sig, seed, tag='gen'):
     if mo[0] != 'ok':
         return
     params = np.concatenate([psi, sig])
+    if ctx.cases % 2 == 0:
+        # an evaluation with sensitivities first: plain and pointwise evaluation afterwards must be unaffected
+        try:
+            with np.errstate(all='ignore'):
+                ll.evaluateS1(params)
+        except Exception:  # noqa  (C03 / C08 deal with evaluateS1 itself)
+            pass
+        if ctx.cases % 4 == 0:
+            try:
+                with np.errstate(all='ignore'):
+                    pw0 = np.asarray(ll.compute_pointwise_ll(params), float)
+                ctx.spec('C01.pointwise_after_evaluateS1', len(pw0) == sum(len(g) for g in grids), inp)
+            except Exception as e:  # noqa
+                ctx.spec('C01.pointwise_after_evaluateS1', False, inp, {'raised': repr(e)[:200]})
     try:
         with np.errstate(all='ignore'):
             v = float(ll(params))
